@@ -66,7 +66,7 @@ def solve(arm, G, start, free, check, level, script=None, max_iters=30):
 
 
 def judge(acc, arm, ref, case, G, th, ok, free, reachable, expect_success, ptol, rtol):
-    tha = np.asarray(arm._theta, float).reshape(-1)
+    tha = armlib.joint_state(arm)
     sc = max(1.0, float(np.abs(G[:3, 3]).max()))
     # coherence of the arm after the call, success or not
     want = ref.fk(tha)
